@@ -148,6 +148,30 @@ theorem childPart_inj (ssP ssT : List Spec.SInfo) (cl cl' : Nat) (hn : ssP.lengt
     · intro x hx; simp only [List.mem_map] at hx; obtain ⟨c, _, rfl⟩ := hx; simp [Spec.be2]
     · intro x hx; simp only [List.mem_map] at hx; obtain ⟨c, _, rfl⟩ := hx; simp [Spec.be2]
 
+/-- THE STANDARD REPRESENTATION IS INJECTIVE: `d1 d2 ++ data ++ depths ++ hashes` (≤ 4 references, 2-byte depths,
+32-byte hashes) determines the reference count, the exotic flag, the level mask, the BIT STRING, every child depth
+field and every child hash. -/
+theorem repr_injective (n1 n2 : Nat) (e1 e2 : Bool) (m1 m2 : Nat) (b1 b2 : Bits) (ds1 ds2 hs1 hs2 : List Bytes)
+    (hn1 : n1 ≤ 4) (hn2 : n2 ≤ 4) (hd1 : ds1.length = n1) (hd2 : ds2.length = n2) (hh1 : hs1.length = n1) (hh2 : hs2.length = n2)
+    (hdl1 : ∀ x ∈ ds1, x.length = 2) (hdl2 : ∀ x ∈ ds2, x.length = 2)
+    (hhl1 : ∀ x ∈ hs1, x.length = 32) (hhl2 : ∀ x ∈ hs2, x.length = 32)
+    (h : [Spec.d1 n1 e1 m1, Spec.d2 b1.length] ++ Spec.dataBytes b1 ++ ds1.flatten ++ hs1.flatten
+       = [Spec.d1 n2 e2 m2, Spec.d2 b2.length] ++ Spec.dataBytes b2 ++ ds2.flatten ++ hs2.flatten) :
+    n1 = n2 ∧ e1 = e2 ∧ m1 = m2 ∧ b1 = b2 ∧ ds1 = ds2 ∧ hs1 = hs2 := by
+  simp only [List.cons_append, List.nil_append, List.cons.injEq, List.append_assoc] at h
+  obtain ⟨h1, h2, h3⟩ := h
+  obtain ⟨en, ee, em⟩ := d1_inj _ _ _ _ _ _ hn1 hn2 h1
+  have hdl : (Spec.dataBytes b1).length = (Spec.dataBytes b2).length := by
+    rw [length_dataBytes, length_dataBytes]
+    have := d2_aligned_iff _ _ h2
+    omega
+  obtain ⟨e1', e2'⟩ := List.append_inj h3 hdl
+  have hfl : ds1.flatten.length = ds2.flatten.length := by
+    rw [length_flatten_const 2 _ hdl1, length_flatten_const 2 _ hdl2, hd1, hd2, en]
+  obtain ⟨e3, e4⟩ := List.append_inj e2' hfl
+  exact ⟨en, ee, em, dataBytes_inj b1 b2 h2 e1',
+    flatten_inj 2 _ _ (by rw [hd1, hd2, en]) hdl1 hdl2 e3, flatten_inj 32 _ _ (by rw [hh1, hh2, en]) hhl1 hhl2 e4⟩
+
 /-- which numbers of references the exotic kinds have -/
 def KindShape (k : Spec.Kind) (n : Nat) : Prop :=
   n ≤ 4 ∧ (k = .pruned → n = 0) ∧ (k = .library → n = 0) ∧ (k = .merkleProof → n = 1) ∧ (k = .merkleUpdate → n = 2)
